@@ -38,8 +38,8 @@ BOUND = {
              '26 combs of 3-5 incl. left-nested and list/pair-ended ones) with 2-3 values per leaf; all mutants of every '
              'leaf-type value and of the first, middle and last value of each depth-1 type',
     'thorough': 'quick types with all mutants of all values, plus every depth-2 type (a constructor over a depth-1 type of the '
-                '6-leaf core and core leaves; combs over the core) with all mutants, plus depth-3 spines over a 2-leaf core '
-                '(all mutants of first/last value)',
+                '6-leaf core and a core leaf; 3/4/5-combs holding a depth-1 type over {int,key_hash}) with all mutants, pairs of two '
+                'depth-1 types (mutants of first/middle/last value), plus depth-3 spines over a 2-leaf core (mutants of first/last value)',
 }
 ASSUMPTIONS = [
     'mc/ref/micheline.py + mc/ref/mtypes.py are the Tezos PACK format (selftests: Octez pack vectors, 248 opcode vectors)',
@@ -229,8 +229,9 @@ def d1_over(unary, binary):
     return out
 
 
-def wrap(inner, leaves):
+def wrap(inner, leaves, comb_leaves=None):
     """every constructor applied to an inner type and leaves (the inner type in each argument position)."""
+    comb_leaves = leaves if comb_leaves is None else comb_leaves
     out = []
     for x in inner:
         out.append(('option', x))
@@ -241,7 +242,8 @@ def wrap(inner, leaves):
             out += [('pair', x, b), ('pair', b, x), ('or', x, b), ('or', b, x), ('map', b, x)]
             if T.comparable(x):
                 out.append(('map', x, b))
-            out += [comb(b, b, x), comb(b, b, b, x), comb(x, b, b, b)]
+            if b in comb_leaves:
+                out += [comb(b, b, x), comb(b, b, b, x), comb(x, b, b, b)]
     return out
 
 
@@ -257,8 +259,9 @@ def universe(tier):
     out = leaves + [(t, 'some' if tier == 'quick' else 'all') for t in d1]
     if tier == 'thorough':
         d1c = uniq(d1_over(CORE6, CORE6) + combs_over(CORE6[:3], (3, 4, 5)))
-        d2 = uniq(wrap(d1c, CORE6) + [('pair', a, b) for a in d1c[:30] for b in d1c[:30]])
+        d2 = uniq(wrap(d1c, CORE6, CORE2))
         out += [(t, 'all') for t in d2]
+        out += [(('pair', a, b), 'some') for a in d1c[:30] for b in d1c[:30]]
         d1s = uniq(d1_over(CORE2, CORE2) + [comb(('int',), ('key_hash',), ('int',), ('int',))])
         d2s = uniq(wrap(d1s, CORE2))
         d3 = uniq(wrap(d2s, CORE2[:1]))
